@@ -154,6 +154,9 @@ def model_check(rep, module, base_cfg, consts=None, deviations=(), label=None, t
     the *specification* violates its own property).  With expect_violation=<name or True> TLC must
     report a violated invariant (non-vacuity of the invariants on the deviation model)."""
     cfg = mc_cfg(base_cfg, deviations=deviations, consts=consts)
+    # the models finish in 10-250 s on an idle 16-core machine; the timeout only bounds a hung TLC and is
+    # wide enough for a machine that is running several checks at once
+    timeout = max(timeout, 3000)
     res = common.run_tlc(module, cfg=cfg, workers=workers, timeout=timeout, coverage=coverage, heap=heap)
     label = label or (module + (' +' + '+'.join(deviations) if deviations else ''))
     if expect_violation is None:
